@@ -64,6 +64,7 @@ class RealK:
         cls.EmptySchedule = core.EmptySchedule
         cls.Event = events.Event
         cls._loaded = True
+        _load_library_exceptions()
         return cls
 
 
@@ -80,6 +81,20 @@ class Crit(BaseException):
 
 
 EXC = {"Boom": Boom, "Bang": Bang, "ValueError": ValueError, "KeyError": KeyError, "Crit": Crit}
+
+
+def _load_library_exceptions():
+    """exception classes the library itself exports are legal failure types too"""
+    if "StopProcess" not in EXC:
+        from onl.sim.exceptions import StopProcess
+        EXC["StopProcess"] = StopProcess
+
+
+def make_exc(name, tag, n):
+    """an exception instance of the named type (StopProcess takes exactly one argument)"""
+    if name == "StopProcess":
+        return EXC[name](tag)
+    return EXC[name](tag, n)
 
 
 def canon_exc(e):
@@ -119,7 +134,7 @@ def gen_cond(rng, prof, flavour, depth, nev, npids):
         else:
             kids.append(["t", gen_delay(rng, flavour)])
     mode = rng.choice(["all", "any"])
-    style = "op" if arity == 2 and rng.random() < 0.5 else "ctor"
+    style = "op" if arity == 2 and rng.random() < 0.5 else rng.choice(["ctor", "ctor", "gen", "iter", "tuple"])
     return [mode, style, kids]
 
 
@@ -137,9 +152,9 @@ def gen_script(rng, prof, flavour, idx, nscripts, nev, npids_guess):
         elif k == "wait" and nev:
             ops.append(["wait", rng.randrange(nev)])
         elif k == "succeed" and nev:
-            ops.append(["succeed", rng.randrange(nev)])
+            ops.append(["succeed", rng.randrange(nev)] + (["excval"] if rng.random() < 0.08 else []))
         elif k == "fail" and nev:
-            ops.append(["fail", rng.randrange(nev), rng.choice(["Boom", "Bang", "ValueError", "Boom", "Crit"])])
+            ops.append(["fail", rng.randrange(nev), rng.choice(["Boom", "Bang", "ValueError", "Boom", "Crit", "StopProcess"])])
         elif k == "spawn" and idx + 1 < nscripts:
             ops.append(["spawn", rng.randrange(idx + 1, nscripts)])
             nkids += 1
@@ -161,9 +176,11 @@ def gen_script(rng, prof, flavour, idx, nscripts, nev, npids_guess):
     end = None
     r = rng.random()
     if r < prof.get("p_raise", 0.1):
-        end = ["raise", rng.choice(["Boom", "Bang", "Boom", "Crit"])]
+        end = ["raise", rng.choice(["Boom", "Bang", "Boom", "Crit", "StopProcess"])]
     elif r < 0.6:
         end = ["ret", f"r{idx}"]
+    elif r < 0.63:
+        end = ["retexc", f"r{idx}"]
     return {
         "ops": ops,
         "on_fail": rng.choices(["catch", "raise"], [prof.get("p_catch", 0.7), 1 - prof.get("p_catch", 0.7)])[0],
@@ -267,7 +284,7 @@ class Runner:
             d = val.todict()
             out = []
             for e in keys:
-                out.append((self.label_of.get(id(e), "?"), self.cv(d[e])))
+                out.append((self.label_of.get(id(e), "?"), canon_exc(d[e]) if e._ok is False else self.cv(d[e])))
                 # the dict-like views must agree with each other (C05 "exact value")
                 if e not in val or val[e] is not d[e]:
                     out.append(("!inconsistent-view", self.label_of.get(id(e), "?")))
@@ -275,7 +292,8 @@ class Runner:
                 out.append(("!eq-dict-false",))
             return ("cv", tuple(out))
         if isinstance(val, BaseException):
-            return canon_exc(val)
+            e = canon_exc(val)
+            return ("excval", e[1], e[2])        # an exception object delivered as an ordinary *value*
         return repr(type(val).__name__)
 
     # -- process spawning -----------------------------------------------------
@@ -329,7 +347,15 @@ class Runner:
         if style == "op" and len(evs) == 2:
             c = (evs[0] & evs[1]) if mode == "all" else (evs[0] | evs[1])
         else:
-            c = env.all_of(evs) if mode == "all" else env.any_of(evs)
+            if style == "gen":
+                arg = (e for e in evs)              # a one-shot iterable (possibly yielding nothing)
+            elif style == "iter":
+                arg = iter(evs)
+            elif style == "tuple":
+                arg = tuple(evs)
+            else:
+                arg = evs
+            c = env.all_of(arg) if mode == "all" else env.any_of(arg)
         self.nuid += 1
         label = f"C{self.nuid}"
         self._name(c, label)
@@ -376,9 +402,12 @@ class Runner:
                         mon.trigger(f"E{op[1]}", NORMAL, env.now)
                     try:
                         if kind == "succeed":
-                            tgt.succeed(f"s{pid}.{opi}")
+                            if len(op) > 2 and op[2] == "excval":
+                                tgt.succeed(Boom(f"value{pid}.{opi}"))      # an exception object as an ordinary value
+                            else:
+                                tgt.succeed(f"s{pid}.{opi}")
                         else:
-                            tgt.fail(EXC[op[2]](f"f{pid}.{opi}", opi))
+                            tgt.fail(make_exc(op[2], f"f{pid}.{opi}", opi))
                         res = "ok"
                     except RuntimeError:
                         res = "RuntimeError"
@@ -468,7 +497,9 @@ class Runner:
             end = script["end"]
             if end and end[0] == "raise":
                 self._end(pid, "raise", None)
-                raise EXC[end[1]](f"end{pid}", pid)
+                raise make_exc(end[1], f"end{pid}", pid)
+            if end and end[0] == "retexc":
+                return self._end(pid, "ret", Bang(end[1]))          # returns an exception object as its value
             return self._end(pid, "ret", end[1] if end else None)
         except GeneratorExit:
             raise
